@@ -8,9 +8,11 @@ import (
 	"os"
 	"strconv"
 	"strings"
+	"time"
 
 	"github.com/goatcms/goatcore/app"
 	"github.com/goatcms/goatcore/app/scope/argscope"
+	"github.com/goatcms/goatcore/app/scope/datascope"
 	"github.com/goatcms/goatcore/varutil"
 )
 
@@ -23,17 +25,40 @@ type readObs struct {
 	Rest []byte   `json:"-"`
 }
 
-func implReadFrom(rd *bytes.Reader) (o readObs) {
-	defer func() {
-		if r := recover(); r != nil {
-			o = readObs{Kind: "panic"}
+// c17Hangs counts ReadArguments calls that did not return within c17HangLimit. A call that hangs
+// keeps spinning in its goroutine, so after c17MaxHangs of them the direct-call generators stop
+// (every hang has been reported as an oracle failure by then; the run still finishes and reports).
+var (
+	c17Hangs     int
+	c17HangLimit = 15 * time.Second
+)
+
+const c17MaxHangs = 3
+
+func implReadFrom(rd io.Reader) readObs {
+	ch := make(chan readObs, 1)
+	go func() {
+		defer func() {
+			if r := recover(); r != nil {
+				ch <- readObs{Kind: "panic"}
+			}
+		}()
+		args, eof, err := varutil.ReadArguments(rd)
+		if err != nil {
+			ch <- readObs{Kind: "err"}
+			return
 		}
+		ch <- readObs{Kind: "ok", Args: args, EOF: eof}
 	}()
-	args, eof, err := varutil.ReadArguments(rd)
-	if err != nil {
-		return readObs{Kind: "err"}
+	t := time.NewTimer(c17HangLimit)
+	defer t.Stop()
+	select {
+	case o := <-ch:
+		return o
+	case <-t.C:
+		c17Hangs++
+		return readObs{Kind: "hang"}
 	}
-	return readObs{Kind: "ok", Args: args, EOF: eof}
 }
 
 func implRead(input []byte) readObs {
@@ -117,100 +142,124 @@ func runC17(o *Out, rng *RNG, tier string, replay string) {
 	o.ShardSize = 700
 	o.Rule = "inputs: (1) every byte string over {SP,TAB,NL,\",\\,=,<,a,0xC3} up to the tier's length bound (exhaustive); " +
 		"(2) random strings up to length 200 over a weighted alphabet; (3) token commands: plain words, reference-quoted arguments, " +
-		"heredocs, backslash-newline continuations, several commands per reader; (4) argument lists for InjectArgs. " +
+		"heredocs, backslash-newline continuations, several commands per reader; (4) argument lists for InjectArgs; (5) terminal-loop scripts; " +
+		"(6) every byte value 0..255 in a word / quoted argument / heredoc body; (7) heredoc bodies that look like their marker (random + exhaustive over {NL,a,b,SP}); " +
+		"(8) everything that can follow k=<< over a token alphabet (exhaustive); (9) continuations between arguments and backslashes that do not continue the line; " +
+		"(10) argument lists over all byte values through the reference quoting; (11) arguments of 255..65537 bytes, commands of 3000 arguments (L2 only); " +
+		"(12) InjectArgs with up to 1200 positional arguments, SeparateArgs, InjectString; (13) RunCommandFromReader / RunString / RunCommand. " +
 		"Non-trivial: the implementation returned at least one argument or an error/panic; distinct by input bytes."
 
 	addRead := func(input []byte) readObs {
+		if c17Hangs >= c17MaxHangs {
+			o.Stat("skipped_after_hangs")
+			return readObs{Kind: "hang"}
+		}
 		ob := implRead(input)
+		if ob.Kind == "hang" { // no Coq observation stands for "did not return"
+			o.Fail("terminates", fmt.Sprintf("ReadArguments did not return within %v", c17HangLimit), "hang", ob.desc(input))
+			o.CountEval("r:"+string(input), true)
+			o.Stat("read_hang")
+			return ob
+		}
 		nontrivial := ob.Kind != "ok" || len(ob.Args) > 0
 		o.AddCase(fmt.Sprintf("CRead %s %s", coqBytes(input), ob.coq()), ob.desc(input), "r:"+string(input), nontrivial)
 		o.Stat("read_" + ob.Kind)
 		if ob.Kind == "panic" {
 			o.Fail("no_panic", "ReadArguments panicked", "panic", ob.desc(input))
 		}
+		// SplitArguments (the string entry point of the same file) is ReadArguments on the string
+		if sp := c17Split(string(input)); sp.Kind != ob.Kind || !sameArgs(sp.Args, ob.Args) || sp.EOF != ob.EOF {
+			o.Fail("split_equals_read", fmt.Sprintf("SplitArguments: kind=%s args=%q eof=%v, ReadArguments on the same bytes: kind=%s args=%q eof=%v",
+				sp.Kind, sp.Args, sp.EOF, ob.Kind, ob.Args, ob.EOF), "split", ob.desc(input))
+		}
 		return ob
 	}
 
-	checkTokens := func(all []byte, expected [][]string, tail string) {
-		// L1 on the first command
-		addRead(append([]byte{}, all...))
-		// L2: successive reads from ONE reader return the successive commands
+	// checkTokensOpt: successive reads from ONE reader return the successive commands.
+	// noL1: the input is too long for the in-Coq evaluation (L2 only). looseFirst: the arguments of
+	// command 0 are left open (only that it ends at its newline is judged, by what follows).
+	checkTokensOpt := func(all []byte, expected [][]string, tail string, noL1, looseFirst bool) bool {
+		if c17Hangs >= c17MaxHangs {
+			o.Stat("skipped_after_hangs")
+			return false
+		}
+		if !noL1 {
+			addRead(append([]byte{}, all...)) // L1 on the first command
+		} else {
+			o.CountEval("t:"+string(all), true)
+		}
+		desc := func() map[string]interface{} {
+			d := map[string]interface{}{"op": "tokens", "input": byteList(all), "expected": expBytes(expected), "tail": byteList([]byte(tail)),
+				"nol1": noL1, "loose": looseFirst}
+			return d
+		}
 		rd := bytes.NewReader(all)
-		okAll := true
 		for ci, exp := range expected {
 			ob := implReadFrom(rd)
-			if ob.Kind != "ok" || ob.EOF || !sameArgs(ob.Args, exp) {
-				okAll = false
-				o.Fail("tokens_roundtrip", fmt.Sprintf("command %d: expected %q eof=false, got kind=%s args=%q eof=%v", ci, exp, ob.Kind, ob.Args, ob.EOF),
-					"tokens", map[string]interface{}{"op": "tokens", "input": byteList(all), "expected": expBytes(expected)})
-				break
+			if ob.Kind == "hang" {
+				o.Fail("terminates", fmt.Sprintf("command %d: ReadArguments did not return within %v", ci, c17HangLimit), "hang", desc())
+				return false
+			}
+			oracle := "tokens_roundtrip"
+			bad := ob.Kind != "ok" || ob.EOF || !sameArgs(ob.Args, exp)
+			if ci == 0 && looseFirst {
+				oracle = "stops_at_newline"
+				bad = ob.Kind != "ok" || ob.EOF
+			} else if ci > 0 && looseFirst {
+				oracle = "stops_at_newline"
+			}
+			if bad {
+				o.Fail(oracle, fmt.Sprintf("command %d: expected %s eof=false, got kind=%s args=%s eof=%v", ci, c17Short(exp), ob.Kind, c17Short(ob.Args), ob.EOF),
+					"tokens", desc())
+				return false
 			}
 		}
-		if okAll {
-			ob := implReadFrom(rd)
-			var exp []string
-			if tail != "" {
-				exp = []string{tail}
-			}
-			if ob.Kind != "ok" || !ob.EOF || !sameArgs(ob.Args, exp) {
-				o.Fail("eof", fmt.Sprintf("after the last command expected %q eof=true, got kind=%s args=%q eof=%v", exp, ob.Kind, ob.Args, ob.EOF),
-					"eof", map[string]interface{}{"op": "tokens", "input": byteList(all), "expected": expBytes(expected), "tail": byteList([]byte(tail))})
-			}
+		ob := implReadFrom(rd)
+		var exp []string
+		if tail != "" {
+			exp = []string{tail}
 		}
+		if ob.Kind != "ok" || !ob.EOF || !sameArgs(ob.Args, exp) {
+			o.Fail("eof", fmt.Sprintf("after the last command expected %s eof=true, got kind=%s args=%s eof=%v", c17Short(exp), ob.Kind, c17Short(ob.Args), ob.EOF),
+				"eof", desc())
+			return false
+		}
+		return true
+	}
+	checkTokens := func(all []byte, expected [][]string, tail string) {
+		checkTokensOpt(all, expected, tail, false, false)
 	}
 
-	doInject := func(args []string) {
+	// judgeInject: args = the argument list the mapping is about; call performs it on the recorder
+	// (InjectArgs(args...) itself, or InjectString(src) for a src that splits into args).
+	judgeInject := func(args []string, desc map[string]interface{}, key string, call func(scp app.DataScope) error) {
 		r := &recorder{}
 		var panicked bool
+		var callErr error
 		func() {
 			defer func() {
 				if recover() != nil {
 					panicked = true
 				}
 			}()
-			argscope.InjectArgs(r, args...)
+			callErr = call(r)
 		}()
-		if panicked || len(r.sets) == 0 || r.sets[0][0] != "--" {
-			o.Fail("inject_shape", "InjectArgs panicked or did not set \"--\" first", "inject", map[string]interface{}{"op": "inject", "args": strsBytes(args)})
+		if panicked || callErr != nil || len(r.sets) == 0 || r.sets[0][0] != "--" {
+			o.Fail("inject_shape", fmt.Sprintf("%v(%s) panicked (%v), returned an error (%v) or did not set \"--\" first", desc["op"], c17Short(args), panicked, callErr), "inject", desc)
 			return
 		}
 		sep, _ := r.sets[0][1].([]string)
 		var items []string
-		// L2: independent expectation
-		var expSets [][2]string
-		pos := 0
-		var expSep []string
-		sepIdx := -1
-		for j, a := range args {
-			if a == "--" {
-				sepIdx = j
-				break
-			}
-		}
-		before := args
-		if sepIdx >= 0 {
-			before = args[:sepIdx]
-			expSep = args[sepIdx+1:]
-		}
-		for _, a := range before {
-			if idx := strings.Index(a, "="); idx >= 0 {
-				t := strings.TrimPrefix(strings.TrimPrefix(a, "-"), "-")
-				idx = strings.Index(t, "=")
-				expSets = append(expSets, [2]string{t[:idx], t[idx+1:]})
-			} else {
-				expSets = append(expSets, [2]string{"$" + strconv.Itoa(pos), a})
-				pos++
-			}
-		}
+		expSets, expSep := c17ExpectInject(args) // L2: independent expectation
 		ok := sameArgs(sep, expSep) && len(expSets) == len(r.sets)-1
-		for _, s := range r.sets[1:] {
+		for j, s := range r.sets[1:] {
 			k, _ := s[0].(string)
 			v, _ := s[1].(string)
-			if strings.HasPrefix(k, "$") && !strings.Contains(v+"=", "=x=") { // positional keys rendered as KPos
-			}
 			keyTerm := fmt.Sprintf("KName %s", coqStr(k))
-			if strings.HasPrefix(k, "$") {
-				if n, err := strconv.Atoi(k[1:]); err == nil && !strings.Contains(k, "=") {
+			// a key "$n" stands for position n unless the expectation says that this set is a named
+			// one (an argument such as `$0=x`)
+			if strings.HasPrefix(k, "$") && !(j < len(expSets) && expSets[j][2] == "named") {
+				if n, err := strconv.Atoi(k[1:]); err == nil && k[1:] == strconv.Itoa(n) {
 					keyTerm = fmt.Sprintf("KPos %d%%nat", n)
 				}
 			}
@@ -218,19 +267,69 @@ func runC17(o *Out, rng *RNG, tier string, replay string) {
 		}
 		if ok {
 			for j, e := range expSets {
-				k, _ := r.sets[j+1][0].(string)
-				v, _ := r.sets[j+1][1].(string)
-				if k != e[0] || v != e[1] {
+				k, kok := r.sets[j+1][0].(string)
+				v, vok := r.sets[j+1][1].(string)
+				if !kok || !vok || k != e[0] || v != e[1] {
 					ok = false
 				}
 			}
 		}
-		desc := map[string]interface{}{"op": "inject", "args": strsBytes(args)}
 		if !ok {
-			o.Fail("inject", fmt.Sprintf("InjectArgs(%q): sets=%v", args, r.sets), "inject", desc)
+			o.Fail("inject", fmt.Sprintf("%v(%s): sets=%s, expected \"--\"=%s then %s", desc["op"], c17Short(args), c17ShortSets(r.sets), c17Short(expSep), c17ShortPairs(expSets)), "inject", desc)
 		}
-		o.AddCase(fmt.Sprintf("CInject %s %s %s", coqStrList(args), coqList(items), coqStrList(sep)), desc, "i:"+strings.Join(args, "\x00"), len(args) > 0)
+		if len(args) <= 64 {
+			o.AddCase(fmt.Sprintf("CInject %s %s %s", coqStrList(args), coqList(items), coqStrList(sep)), desc, key, len(args) > 0)
+		} else { // positions are unary numbers in the model: very long lists are judged by L2 only
+			o.CountEval(key, true)
+		}
+		// the same call on a real data scope: every key ends with the value of its LAST expected set
+		ds := datascope.New(make(map[interface{}]interface{}))
+		if err := call(ds); err != nil {
+			o.Fail("inject_shape", fmt.Sprintf("%v(%s) on a datascope returned %v", desc["op"], c17Short(args), err), "inject", desc)
+			return
+		}
+		last := map[string]string{}
+		for _, e := range expSets {
+			last[e[0]] = e[1]
+		}
+		for k, v := range last {
+			if got, _ := ds.Value(k).(string); got != v || ds.Value(k) == nil {
+				o.Fail("inject", fmt.Sprintf("%v(%s): data scope has %q=%v, expected %q", desc["op"], c17Short(args), k, ds.Value(k), v), "inject", desc)
+				break
+			}
+		}
+		if _, clash := last["--"]; !clash { // (an argument `----=x` is a named one with the key "--")
+			if got, _ := ds.Value("--").([]string); !sameArgs(got, expSep) {
+				o.Fail("inject", fmt.Sprintf("%v(%s): data scope has \"--\"=%q, expected %q", desc["op"], c17Short(args), got, expSep), "inject", desc)
+			}
+			if n := len(ds.Keys()); n != len(last)+1 {
+				o.Fail("inject", fmt.Sprintf("%v(%s): data scope has %d keys, expected %d", desc["op"], c17Short(args), n, len(last)+1), "inject", desc)
+			}
+		}
+	}
+	doInject := func(args []string) {
+		judgeInject(args, map[string]interface{}{"op": "inject", "args": strsBytes(args)}, "i:"+strings.Join(args, "\x00"),
+			func(scp app.DataScope) error { return argscope.InjectArgs(scp, append([]string{}, args...)...) })
+		// SeparateArgs (helpers.go) on its own: the arguments before the first "--" and those after it
+		_, expSep := c17ExpectInject(args)
+		before, after := argscope.SeparateArgs(append([]string{}, args...))
+		nb := len(args)
+		for j, a := range args {
+			if a == "--" {
+				nb = j
+				break
+			}
+		}
+		if !sameArgs(before, args[:nb]) || !sameArgs(after, expSep) {
+			o.Fail("separate", fmt.Sprintf("SeparateArgs(%q) = %q, %q; expected %q, %q", args, before, after, args[:nb], expSep), "inject", map[string]interface{}{"op": "inject", "args": strsBytes(args)})
+		}
 		o.Stat("inject")
+	}
+	// InjectString(src): the first command of src, mapped like InjectArgs maps it
+	doInjectString := func(src string, args []string) {
+		judgeInject(args, map[string]interface{}{"op": "injectstr", "input": byteList([]byte(src)), "args": strsBytes(args)}, "is:"+src,
+			func(scp app.DataScope) error { return argscope.InjectString(scp, src) })
+		o.Stat("inject_string")
 	}
 
 	if replay != "" { // re-run the one input of a replay file
@@ -243,6 +342,8 @@ func runC17(o *Out, rng *RNG, tier string, replay string) {
 				Args     [][]int   `json:"args"`
 				Expected [][][]int `json:"expected"`
 				Tail     []int     `json:"tail"`
+				NoL1     bool      `json:"nol1"`
+				Loose    bool      `json:"loose"`
 			} `json:"case"`
 		}
 		must(json.Unmarshal(b, &rp))
@@ -260,6 +361,12 @@ func runC17(o *Out, rng *RNG, tier string, replay string) {
 				args[i] = string(toB(a))
 			}
 			doInject(args)
+		case "injectstr":
+			args := make([]string, len(rp.Case.Args))
+			for i, a := range rp.Case.Args {
+				args[i] = string(toB(a))
+			}
+			doInjectString(string(toB(rp.Case.Input)), args)
 		case "tokens":
 			var exp [][]string
 			for _, c := range rp.Case.Expected {
@@ -269,7 +376,7 @@ func runC17(o *Out, rng *RNG, tier string, replay string) {
 				}
 				exp = append(exp, cmd)
 			}
-			checkTokens(toB(rp.Case.Input), exp, string(toB(rp.Case.Tail)))
+			checkTokensOpt(toB(rp.Case.Input), exp, string(toB(rp.Case.Tail)), rp.Case.NoL1, rp.Case.Loose)
 		default:
 			addRead(toB(rp.Case.Input))
 		}
@@ -441,4 +548,13 @@ func runC17(o *Out, rng *RNG, tier string, replay string) {
 		nLoop = 4000
 	}
 	c17LoopProbe(o, rng.Fork(), nLoop)
+
+	// (6)-(12) the shapes the generators above do not reach (harness/c17_audit.go)
+	c17Audit(o, rng.Fork(), tier, c17Hooks{addRead: addRead, checkTokens: checkTokensOpt, doInject: doInject, doInjectString: doInjectString})
+	// (13) the other entry points of the terminal anchor: RunString, RunCommandFromReader, RunCommand
+	nExec := 120
+	if tier == "thorough" {
+		nExec = 3000
+	}
+	c17TermExecProbe(o, rng.Fork(), nExec)
 }
